@@ -38,20 +38,45 @@ func zzC08_order() {
 		log = append(log, zzEv{ci, m.Header.HopByHopID, false})
 		running[ci]--
 	})
+	// the connection's handler: the function itself, or a ServeMux dispatching to it by short name
+	// (abstract dictionary: "XX"), by index, or as catch-all
+	var top Handler = h
+	switch vChoice("dispatch", 4) {
+	case 1:
+		mux := NewServeMux()
+		mux.Handle("XXR", h)
+		mux.Handle("XXA", h)
+		top = mux
+	case 2:
+		mux := NewServeMux()
+		mux.HandleIdx(CommandIndex{AppID: 0, Code: 257, Request: true}, h)
+		mux.HandleIdx(CommandIndex{AppID: 0, Code: 257, Request: false}, h)
+		top = mux
+	case 3:
+		mux := NewServeMux()
+		mux.Handle("ALL", h)
+		top = mux
+	}
 	for i := 0; i < nconn; i++ {
 		release[i] = make(chan struct{}, 8)
 		trans[i] = zzNewTransport("198.51.100.1:1000")
-		c, err := NewConn(trans[i], "zz", h, d)
+		c, err := NewConn(trans[i], "zz", top, d)
 		vAssume(err == nil)
 		conns[i] = c
 	}
 	// arrival pattern per connection: all messages in one segment / one segment per message /
 	// the first message byte by byte (header split at every offset would be 19 more cases: the
 	// fragmenting behaviour of ReadMessage itself is C05's subject)
+	perConn := vParam("PERCONN", 0) == 1
+	kind0, arrival0 := vChoice("msgkind", 3), vChoice("arrival", 3)
 	for i := 0; i < nconn; i++ {
 		var all []byte
 		// requests, answers, or alternating: the rule holds for every kind of message
-		kind := vChoice("msgkind", 3)
+		// (without PERCONN the connections still differ in message kind: kind0, kind0+1, ...)
+		kind, arrival := (kind0+i)%3, arrival0
+		if perConn && i > 0 {
+			kind, arrival = vChoice("msgkind", 3), vChoice("arrival", 3)
+		}
 		for k := 0; k < nmsg; k++ {
 			flags := uint8(0x80)
 			if kind == 1 || (kind == 2 && k%2 == 0) {
@@ -59,7 +84,7 @@ func zzC08_order() {
 			}
 			all = append(all, zzPlainMessage(257, flags, 0, uint32(100*(i+1)+k))...)
 		}
-		switch vChoice("arrival", 3) {
+		switch arrival {
 		case 0:
 			trans[i].in <- all
 		case 1:
